@@ -34,6 +34,26 @@ Fixpoint trace (biased : bool) (s : astate) (evs : list sexp) : list sexp :=
       obs s' :: trace biased s' r
   end.
 
+(** optional 5th element of a single-action case: (field action arg budget), a synchronous
+    observer of field (0 version, 1 value, 2 input) that dispatches arg (action 0) / aborts dispatch
+    arg (action 1) from inside the notification, at most budget times *)
+Definition dec_observer (x : sexp) : option (observer * nat) :=
+  match x with
+  | Lst [Num f; Num a; Num arg; Num b] =>
+      let fd := match f with 0%Z => FVersion | 1%Z => FValue | _ => FInput end in
+      let ac := match a with 0%Z => ODispatch arg | _ => OAbort (Z.to_nat arg) end in
+      Some ((fd, ac), Z.to_nat b)
+  | _ => None
+  end.
+
+Fixpoint trace_obs (ob : option observer) (sb : ostate) (evs : list sexp) : list sexp :=
+  match evs with
+  | [] => []
+  | e :: r =>
+      let sb' := match dec_event e with Some ev => step_obs ob sb ev | None => sb end in
+      obs (fst sb') :: trace_obs ob sb' r
+  end.
+
 Definition dec_mevent (e : sexp) : option mevent :=
   match as_Z (nth_s 0 e) with
   | 0%Z => Some (MDispatch (as_Z (nth_s 1 e)))
@@ -74,7 +94,11 @@ Definition restored (x : sexp) : option Z :=
     only used by the corpus witness, never compared with the implementation *)
 Definition run_C17 (c : sexp) : sexp :=
   match as_Z (nth_s 0 c) with
-  | 0%Z => Lst (trace true (init_with (restored (nth_s 3 c))) (as_list (nth_s 2 c)))
+  | 0%Z =>
+      match dec_observer (nth_s 4 c) with
+      | Some (ob, b) => Lst (trace_obs (Some ob) (init_with (restored (nth_s 3 c)), b) (as_list (nth_s 2 c)))
+      | None => Lst (trace true (init_with (restored (nth_s 3 c))) (as_list (nth_s 2 c)))
+      end
   | 1%Z => Lst (mtrace minit (as_list (nth_s 1 c)))
   | 2%Z => Lst (trace false init (as_list (nth_s 2 c)))
   | _ => Lst []
